@@ -16,7 +16,7 @@ import (
 
 func init() { Registry["C01"] = runC01 }
 
-const explanationC01 = "Decides structural necessary conditions of C01 on the mechanisms its anchors name: (R01.1) every identifier computed by Goify passes the reserved-word escape, which consults Go keywords, predeclared identifiers and the package table; (R01.2) name allocation registers what it returns — every name returned by NameScope.Unique is recorded in the scope's table with the returned value, and HashedUnique looks up and stores under the same hash key the name it returns; (R01.3) validation templates never print a key that may be absent (shared with C04/R04.3–R04.4); (R01.4) every Go file reported as written was parsed and formatted and the write pipeline's errors are not swallowed (shared with C09/R09.4–R09.7); (R01.5) example generation never divides by a length difference that can be zero (a strict comparison dominates the modulo); (R01.6) once a validator prepares a type-resolved copy of a mapped attribute, its kind checks walk that copy and not the unresolved original; (R01.7) local variable names of generated code are allocated through the name scope in the HTTP/gRPC data builders; (R01.8) generator-wide lints whose violations yield crashes or duplicate/uncompilable output — stale search flags and per-iteration variables, seen-sets keyed inconsistently, recursion guards dropped, slices reused across iterations, range bodies of templates ignoring their element. NOT decided: type-correctness of the generated packages for all designs (needs the generator to run and go/types on its output — translation validation, another family)."
+const explanationC01 = "Decides structural necessary conditions of C01 on the mechanisms its anchors name: (R01.1) every identifier computed by Goify passes the reserved-word escape, which consults Go keywords, predeclared identifiers and the package table; (R01.2) name allocation registers what it returns — every name returned by NameScope.Unique is recorded in the scope's table with the returned value, and HashedUnique looks up and stores under the same hash key the name it returns; (R01.3) validation templates never print a key that may be absent (shared with C04/R04.3–R04.4); (R01.4) every Go file reported as written was parsed and formatted and the write pipeline's errors are not swallowed (shared with C09/R09.4–R09.7); (R01.5) example generation never divides by a length difference that can be zero (a strict comparison dominates the modulo); (R01.6) once a validator prepares a type-resolved copy of a mapped attribute, its kind checks walk that copy and not the unresolved original; (R01.7) local variable names of generated code are allocated through the name scope in the HTTP/gRPC data builders; (R01.8) generator-wide lints whose violations yield crashes or duplicate/uncompilable output — stale search flags and per-iteration variables, seen-sets keyed inconsistently, recursion guards dropped, slices reused across iterations, range bodies of templates ignoring their element; (R01.9) the conversion templates cast with the Go type of their branch (shared with C02/R02.3); (R01.10) bytes and any are singled out together wherever a primitive's pointer-ness is decided; (R01.11) the HTTP type builder flattens primitive aliases completely (visited or not, alias of alias, validation merged into the attribute); (R01.12) conversion partials receive the name they define and the name they read in that order; (R01.13) the identifiers of the request builder's fixed text are reserved in the scope that names its path-parameter variables; (R01.14) the validator and the finalizer inherit security requirements in the same order. NOT decided: type-correctness of the generated packages for all designs (needs the generator to run and go/types on its output — translation validation, another family)."
 
 func runC01(c *an.Ctx) string {
 	r011Goify(c)
